@@ -820,8 +820,17 @@ impl CodegenContext {
                                 let scope_nx = match &as_ {
                                     Some(as_) => {
                                         // Want to import into a new named scope
-                                        self.symbols
-                                            .ensure_index(self.current_scope_nx, &as_.path.data)
+                                        let scope_nx = self
+                                            .symbols
+                                            .ensure_index(self.current_scope_nx, &as_.path.data);
+                                        if as_.path.data.len() == 1 {
+                                            // The scope is defined by its name in the import
+                                            let parent_scope = self.current_scope_nx;
+                                            let span = as_.path.span;
+                                            self.symbol_definition(scope_nx)
+                                                .set_location(DefinitionLocation { parent_scope, span });
+                                        }
+                                        scope_nx
                                     }
                                     None => self.current_scope_nx,
                                 };
